@@ -33,6 +33,113 @@ fn usage() -> ! {
   std::process::exit(2)
 }
 
+/// Runs this very command line in a child process and relays its output. If the child is killed
+/// by a signal (abort, segfault) the supervisor reports the violation itself: the candidate the
+/// child announced last, or - when it died during the scan - the run a single-worker re-scan
+/// dies in.
+fn supervise(args: &[String]) -> i32 {
+  use std::io::{BufRead, BufReader};
+  let exe = std::env::current_exe().expect("current_exe");
+  let run = |extra_env: &[(&str, &str)], echo: bool| -> (Option<i32>, Option<String>, Option<String>, bool) {
+    let mut cmd = std::process::Command::new(&exe);
+    cmd.args(&args[1..]).env("FIBSIM_CHILD", "1").stdout(std::process::Stdio::piped());
+    for (k, v) in extra_env {
+      cmd.env(k, v);
+    }
+    let mut child = match cmd.spawn() {
+      Ok(c) => c,
+      Err(e) => {
+        println!("HARNESS-ERROR: cannot spawn child: {e}");
+        return (Some(2), None, None, false);
+      }
+    };
+    let mut candidate = None;
+    let mut last_run = None;
+    let mut saw_violation = false;
+    if let Some(out) = child.stdout.take() {
+      for line in BufReader::new(out).lines().map_while(Result::ok) {
+        if let Some(rest) = line.strip_prefix("CANDIDATE ") {
+          candidate = Some(rest.to_string());
+          continue;
+        }
+        if let Some(rest) = line.strip_prefix("RUNNING ") {
+          last_run = Some(rest.to_string());
+          continue;
+        }
+        if line.starts_with("VIOLATION ") {
+          saw_violation = true;
+        }
+        if echo {
+          println!("{line}");
+        }
+      }
+    }
+    let code = child.wait().ok().and_then(|s| s.code());
+    (code, candidate, last_run, saw_violation)
+  };
+  let (code, candidate, _, _) = run(&[], true);
+  if let Some(c) = code {
+    if c <= 2 {
+      return c;
+    }
+  }
+  let prop = args.get(2).cloned().unwrap_or_default();
+  if args[1] == "replay" {
+    // the scenario kills the process: that is the reproduction
+    println!("VIOLATION property=? replay={}", args.get(2).cloned().unwrap_or_default());
+    println!("  class=process_aborted detail: replaying the file killed the process (exit {:?}): the code under test panicked in a destructor while unwinding, or corrupted memory", code);
+    return 1;
+  }
+  if let Some(c) = candidate {
+    let path = c.split("replay=").nth(1).unwrap_or("").to_string();
+    println!("VIOLATION property={prop} replay={path}");
+    println!("  {c}");
+    println!("  detail: the process died (exit {:?}) while this violation was being minimised / re-executed: the code under test panicked in a destructor while unwinding, or corrupted memory; the replay file holds the un-minimised scenario", code);
+    return 1;
+  }
+  // died during the scan: find the run with one worker announcing every run
+  println!("fibsim: the check process died during the scan (exit {:?}); re-scanning with one worker to find the run", code);
+  let mut a2: Vec<String> = args.to_vec();
+  a2.push("--jobs".into());
+  a2.push("1".into());
+  let exe2 = exe.clone();
+  let mut cmd = std::process::Command::new(&exe2);
+  cmd.args(&a2[1..]).env("FIBSIM_CHILD", "1").env("FIBSIM_ANNOUNCE_RUNS", "1").stdout(std::process::Stdio::piped());
+  let mut last_run: Option<String> = None;
+  let mut cand2: Option<String> = None;
+  let mut code2 = None;
+  if let Ok(mut child) = cmd.spawn() {
+    if let Some(out) = child.stdout.take() {
+      for line in BufReader::new(out).lines().map_while(Result::ok) {
+        if let Some(rest) = line.strip_prefix("RUNNING ") {
+          last_run = Some(rest.to_string());
+        } else if let Some(rest) = line.strip_prefix("CANDIDATE ") {
+          cand2 = Some(rest.to_string());
+        }
+      }
+    }
+    code2 = child.wait().ok().and_then(|s| s.code());
+  }
+  if let Some(c) = cand2 {
+    let path = c.split("replay=").nth(1).unwrap_or("").to_string();
+    println!("VIOLATION property={prop} replay={path}");
+    println!("  {c}");
+    return 1;
+  }
+  match (code2, last_run) {
+    (None, Some(r)) | (Some(134), Some(r)) | (Some(139), Some(r)) => {
+      let path = r.split("replay=").nth(1).unwrap_or("").to_string();
+      println!("VIOLATION property={prop} replay={path}");
+      println!("  class=process_aborted detail: executing this scenario kills the process ({r}): the code under test panicked in a destructor while unwinding, or corrupted memory");
+      1
+    }
+    _ => {
+      println!("HARNESS-ERROR: the check process died (exit {:?}) and the single-worker re-scan did not (exit {:?})", code, code2);
+      2
+    }
+  }
+}
+
 fn main() {
   let args: Vec<String> = std::env::args().collect();
   if args.len() < 2 {
@@ -49,6 +156,12 @@ fn main() {
         libc::dup2(devnull, 2);
       }
     }
+  }
+  // `check` and `replay` run in a child process under a supervisor: code under test that panics in
+  // a destructor while unwinding (or corrupts memory) takes the whole process down, which must
+  // still end in a VIOLATION line and exit code 1, not in a bare abort.
+  if matches!(args[1].as_str(), "check" | "replay") && std::env::var("FIBSIM_CHILD").is_err() {
+    std::process::exit(supervise(&args));
   }
   match args[1].as_str() {
 "check" | "survey" => {
